@@ -9,7 +9,8 @@ from vlib import *
 
 BASE = 1600000000 * 10**9
 TIMES = [BASE, BASE + 1, BASE + 2, BASE - 1, BASE + 10**9, BASE - 10**9, BASE + 5, BASE + 1000]
-NAMES = ["a", "b", "B", "a.txt", "a-b", "d1", "d2", "src", "out", "x.go", "y.go", "z", "lib", "c"]
+NAMES = ["a", "b", "B", "a.txt", "a-b", "d1", "d2", "src", "out", "x.go", "y.go", "z", "lib", "c",
+         "app", "app.go", "application", "build", "build-tools", "out.d"]      # names that are string prefixes of their siblings
 
 
 def gen_tree(rng, depth, maxdepth):
@@ -176,6 +177,21 @@ def gen_case(rng, root, i):
         sources = [s for s in sources if "$" not in s] or [rng.choice(paths)]
     r = rng.random()
     dst = rng.choice(paths) if r < 0.65 else (rng.choice(["missing-dst", "d1/none"]) if r < 0.78 else rng.choice(["$V", "${V}", "./$V", "$V/", "$W"]))
+    if fn in ("Path", "Glob", "Dir") and rng.random() < 0.3:
+        # the destination lies INSIDE a source that is walked / matched, next to siblings whose names extend its name
+        # (app, app.go, application/): everything beneath the source counts, the destination's namesakes included
+        sib = [(p, q) for p in paths for q in paths if p != q and q.startswith(p) and q.rsplit("/", 1)[0] == p.rsplit("/", 1)[0] and "/" in p + "/"]
+        sib = [(p, q) for p, q in sib if p.count("/") == q.count("/")]
+        if sib:
+            p, q = rng.choice(sib)
+            parent = p.rsplit("/", 1)[0] if "/" in p else "."
+            dst = p
+            if fn == "Dir":
+                sources = rng.choice([[parent], ["."], [parent, q], ["./" + parent if parent != "." else "."]])
+            elif fn == "Path":
+                sources = rng.choice([[q], [p, q], [q, p]])
+            else:
+                sources = rng.choice([[(parent + "/" if parent != "." else "") + "*"], [q]])
     target = rng.choice(TIMES) + rng.choice([0, 0, 1, -1])
     return {"env": env, "fn": fn, "dst": dst, "sources": sources, "target": target}
 
